@@ -161,6 +161,8 @@ func (n *Nine) Do(step []any) (Obs, error) {
 	case "Chmod":
 		st := DontTouch()
 		st.Mode = uint32(toInt(step[2]))
+		// the same Twstat also sets the access time, which no property looks at: the modification time must stay
+		st.Atime = 1000000007
 		m = &wire.Msg{Type: wire.Twstat, Fid: fid, Stat: st}
 	case "Mtime":
 		st := DontTouch()
